@@ -455,6 +455,9 @@ class Analyzer:
             name = e.func.id
             args = [self._ev(fn, a, env, rel) for a in e.args]
             if name == "exp":
+                # math.exp raises OverflowError above log(max float) (~709.78) instead of returning inf
+                if args[0].hi > 709.782712893384 and not (args[0].hi == 709.782712893384 and args[0].hi_open):
+                    self._problem("overflow", fn, e, f"exp argument `{ast.unparse(e.args[0])}` can exceed log(max float) ~ 709.78 (interval {args[0]!r}): math.exp raises OverflowError instead of the value being absorbed by a stable formula")
                 return f_exp(args[0])
             if name == "expm1":
                 return f_expm1(args[0])
